@@ -94,6 +94,49 @@ schema_ok!(schema_z8, Z8, 0, 32, 17);
 // @h schema_vec_u16 props=C18 tier=thorough kind=bounded bound="len<=2" vars="v:Vec<u16>" fns="ser/write_with_names.rs:SchemaWriter"
 schema_ok!(schema_vec_u16, Vec<u16>, 2, 32, 17);
 
+/// a sequence of deep-copy elements, each holding one zero-copy block: the rows of
+/// one element never reach into the next one (children tile their parent)
+// @h schema_vec_db props=C18 tier=thorough kind=bounded bound="len=2" vars="v:Vec<DB> with two elements (contents symbolic)" fns="ser/write_with_names.rs:SchemaWriter::write,ser/write_with_names.rs:SchemaWriter::write_bytes"
+#[kani::proof]
+#[kani::unwind(17)]
+#[kani::stub(alloc::fmt::format, crate::c18_schema::stub_format)]
+pub fn schema_vec_db() {
+    let v: Vec<DB> = vec![DB { blk: kani::any() }, DB { blk: kani::any() }];
+    let mut rec = ArrSink::<32>::new();
+    let schema = ser_schema(&v, &mut rec);
+    assert!(schema.is_some(), "[C18/ok] serialization with schema recording succeeds");
+    let rows = schema.unwrap().0;
+    let n = rec.len;
+    assert!(n == 16, "[C18/same_bytes] length word and two 4-byte blocks are written");
+    let nr = rows.len();
+    assert!(nr >= 1 && nr <= MAXROWS, "[harness] row table too small");
+    assert!(rows[0].offset == 0 && rows[0].size == n, "[C18/root] the top-level row tiles the whole stream");
+    let i = sym_index(MAXROWS);
+    if i < nr {
+        let ri = &rows[i];
+        assert!(ri.offset + ri.size <= n, "[C18/inside] every row lies within the stream");
+        if i + 1 < nr {
+            let nx = &rows[i + 1];
+            assert!(nx.offset >= ri.offset, "[C18/preorder] rows are in pre-order");
+            assert!(nx.offset >= ri.offset + ri.size || nx.offset + nx.size <= ri.offset + ri.size,
+                "[C18/nesting] rows nest or follow each other, never partially overlap");
+        }
+    }
+    // each element has its own block row: [8,12) and [12,16) are both recorded as leaves
+    let mut first = 0;
+    let mut second = 0;
+    let mut j = 0;
+    while j < MAXROWS {
+        if j < nr && rows[j].align == 2 && rows[j].size == 4 {
+            if rows[j].offset == 8 { first += 1; }
+            if rows[j].offset == 12 { second += 1; }
+        }
+        j += 1;
+    }
+    assert!(first == 1 && second == 1, "[C18/tiling] every element's zero-copy block has its own leaf row inside that element");
+    core::mem::forget(rows);
+}
+
 /// padding row longer than a word: a 16-byte unit reached at stream offset 3
 // @h schema_pad_u128 props=C18 tier=quick kind=complete vars="v:[u128;1] written at stream offset 3 (13 padding bytes)" fns="ser/write_with_names.rs:SchemaWriter::align"
 #[kani::proof]
